@@ -253,27 +253,33 @@ impl Sess {
             outside.extend(physical_rows(c));
         }
         let mut entries: Vec<(usize, String)> = Vec::new();
-        let mut singles: Vec<Value> = Vec::new();
-        for r in from..=to {
-            if from > to {
-                break;
-            }
-            let t = tok(&self.store.get_property(r, key));
-            if t != "null" {
-                entries.push((r, t));
+        let mut outs: Vec<Value> = Vec::new();
+        if from <= to {
+            for r in from..=to {
+                let t = tok(&self.store.get_property(r, key));
+                if t != "null" {
+                    entries.push((r, t));
+                }
             }
         }
         for r in outside {
             if from <= to && r >= from && r <= to {
                 continue;
             }
-            singles.push(json!([r, tok(&self.store.get_property(r, key))]));
+            outs.push(json!([r, tok(&self.store.get_property(r, key))]));
         }
-        let mut runs: Vec<Value> = Vec::new();
+        // tile the window with segments (pure run-length compression of what was read)
+        let mut segs: Vec<Value> = Vec::new();
+        let seg = |lo: usize, hi: usize, step: usize, kind: &str, t: &str| json!({"lo": lo, "hi": hi, "step": step, "kind": kind, "tok": t});
+        let mut cur = from;
         let mut i = 0;
         while i < entries.len() {
             let (r0, t0) = (entries[i].0, entries[i].1.clone());
+            if r0 > cur {
+                segs.push(seg(cur, r0 - 1, 1, "null", ""));
+            }
             let kind = KINDS.iter().find(|k| tok(&fill_val(k, r0)) == t0);
+            let mut done = false;
             if let (Some(kind), true) = (kind, i + 2 < entries.len()) {
                 let step = entries[i + 1].0 - r0;
                 let m = |j: usize| entries[i + j].0 == r0 + j * step && entries[i + j].1 == tok(&fill_val(kind, r0 + j * step));
@@ -283,16 +289,24 @@ impl Sess {
                         n += 1;
                     }
                     if n >= 3 {
-                        runs.push(json!([r0, n, step, kind]));
+                        let hi = r0 + (n - 1) * step;
+                        segs.push(seg(r0, hi, step, kind, ""));
+                        cur = hi + 1;
                         i += n;
-                        continue;
+                        done = true;
                     }
                 }
             }
-            singles.push(json!([r0, t0]));
-            i += 1;
+            if !done {
+                segs.push(seg(r0, r0, 1, "tok", &t0));
+                cur = r0 + 1;
+                i += 1;
+            }
         }
-        json!({"key": key, "from": from, "to": to, "runs": runs, "singles": singles})
+        if from <= to && cur <= to {
+            segs.push(seg(cur, to, 1, "null", ""));
+        }
+        json!({"key": key, "from": from, "to": to, "segs": segs, "outs": outs})
     }
     fn scan_all(&self, rows: &BTreeSet<usize>) -> Value {
         let mut o = self.reads(rows);
